@@ -754,3 +754,27 @@ for _r in ('R1-1', 'R1-2', 'R1-3', 'R1-4', 'R2-1', 'R2-2', 'R2-3', 'R2-4', 'R3-1
            'R6-1', 'R6-2', 'R6-3', 'R6-4', 'R7-1', 'R7-2', 'R7-3', 'R7-4', 'R8-1', 'R8-2', 'R8-3', 'R9-1', 'R9-2', 'R9-3', 'R9-4'):
     CORPUS.append({'id': 'S/' + _r + '-silent', 'props': ALL_PROPS, 'rule': None, 'expect': 'silent', 'edits': [],
                    'patch': 'seeded_benign/%s/patch.diff' % _r, 'tolerate_rekeyed': True})
+
+# ---- round 4 of independently written changes
+P('C01-E', 'C01', 'C01.R8'); P('C01-F', 'C01', 'C01.R4')
+P('C02-E', 'C02', 'C02.R4'); P('C02-F', 'C02', 'C02.R5')
+P('C03-E', 'C03', 'C03.R4'); P('C03-F', 'C03')
+P('C04-E', 'C07', 'C07.R1'); P('C04-F', 'C04', 'C04.R3')
+P('C05-E', 'C05', 'C05.R1'); P('C05-F', 'C05', 'C05.R1')
+P('C06-E', 'C06', 'C06.R2'); P('C06-F', 'C06', 'C06.R7')
+P('C07-F', 'C06', 'C06.R1'); P('C09-E', 'C09', 'C09.R2'); P('C09-F', 'C06', 'C06.R1')
+P('C10-E', 'C10', 'C10.R2'); P('C10-F', 'C10', 'C10.R3')
+P('C11-F', 'C11', 'C11.R2')
+P('C12-E', 'C09', 'C09.R3'); P('C12-F', 'C12', 'C12.R1')
+P('C13-E', 'C13', 'C13.R1'); P('C13-F', 'C13', 'C13.R1')
+P('C14-E', 'C14', 'C14.R1'); P('C14-F', 'C09', 'C09.R3')
+P('C15-E', 'C15', 'C15.R5'); P('C15-F', 'C11', 'C11.R2')
+P('C16-F', 'C01', 'C01.R7')
+P('C17-E', 'C17', 'C17.R7'); P('C17-F', 'C17', 'C17.R1')
+P('C18-E', 'C17', 'C17.R1'); P('C18-F', 'C10', 'C10.R1')
+P('C19-E', 'C19', 'C19.R1'); P('C19-F', 'C15', 'C15.R6')
+P('C20-E', 'C20', 'C20.R2')
+B('c02-ply-built-in-helper-of-init', 'C02', edits=[
+  (SQP, "        self.lex = lex.lex(\n            module=lexer,\n            optimize=True,\n            debug=False,\n            outputdir=output_dir)\n",
+        "        self.lex = self._build_lexer(output_dir)\n"),
+  (SQP, "    def list_names(self, expr: str) -> Iterable[str]:", "    @staticmethod\n    def _build_lexer(output_dir):\n        return lex.lex(\n            module=lexer,\n            optimize=True,\n            debug=False,\n            outputdir=output_dir)\n\n    def list_names(self, expr: str) -> Iterable[str]:")])
